@@ -123,4 +123,43 @@ example : let s := runSteps St.init [.snap 1, .read 1, .load 7 true, .swap 7, .s
 /-- the undisciplined table of the unfixed code does admit a race -/
 example : disciplined ("serverDataConfReload", false, 0) = false := by decide
 
+/-! ### the lock domain of the balancer table: no exit keeps the mutex -/
+
+theorem callStep_free (s : MuState) (e : LockExit) (hs : s.held = false ∧ s.blocked = 0) (he : e.2.2 = true) :
+    (callStep s e).held = false ∧ (callStep s e).blocked = 0 := by
+  unfold callStep
+  simp [hs.1, hs.2, he]
+
+/-- **no lock leak** (generic): if every exit of the table releases the mutex, then after ANY sequence of complete
+    calls (reloads that succeed, fail half-way, lookups …) the mutex is free and no call was ever blocked. -/
+theorem C15_no_lock_leak (table : List LockExit) (ht : ∀ e ∈ table, e.2.2 = true)
+    (calls : List LockExit) (hc : ∀ e ∈ calls, e ∈ table) :
+    (runCalls calls).held = false ∧ (runCalls calls).blocked = 0 := by
+  unfold runCalls
+  suffices h : ∀ (cs : List LockExit) (s : MuState), (∀ e ∈ cs, e ∈ table) → s.held = false ∧ s.blocked = 0 →
+      (cs.foldl callStep s).held = false ∧ (cs.foldl callStep s).blocked = 0 from h calls {} hc ⟨rfl, rfl⟩
+  intro cs
+  induction cs with
+  | nil => intro s _ hs; exact hs
+  | cons e rest ih =>
+    intro s hcs hs
+    exact ih (callStep s e) (fun x hx => hcs x (by simp [hx])) (callStep_free s e hs (ht e (hcs e (by simp))))
+
+/-- every exit of every lock-taking function of bal_table.go, bal_gslb.go, bfe_confdata_load.go, bfe_server.go,
+    reverseproxy.go and bfe_cluster.go — regenerated from the CURRENT source — releases its mutex
+    (each `return` is preceded by `Unlock` or covered by a deferred one). -/
+theorem C15_reload_paths_release_lock : ∀ e ∈ BfeVerif.Generated.C15.lockExits, e.2.2 = true := by decide
+
+/-- hence no interleaving of complete reload / lookup calls of the current code leaves a table lock held -/
+theorem C15_no_lock_leak_current (calls : List LockExit) (hc : ∀ e ∈ calls, e ∈ BfeVerif.Generated.C15.lockExits) :
+    (runCalls calls).held = false ∧ (runCalls calls).blocked = 0 :=
+  C15_no_lock_leak _ C15_reload_paths_release_lock calls hc
+
+/-- one exit that keeps the mutex (an early `return` above `t.lock.Unlock()`) blocks every later call for ever -/
+theorem C15_witness_lock_leak :
+    (runCalls [("bal_table.go:BalTable.BalTableReload", 263, false), ("bal_table.go:BalTable.Lookup", 287, true),
+      ("bal_table.go:BalTable.BalTableReload", 277, true)]).blocked = 2 := by decide
+
+example : ("bal_table.go:BalTable.BalTableReload", 271, true) ∈ BfeVerif.Generated.C15.lockExits := by decide
+
 end BfeVerif.C15
